@@ -35,7 +35,7 @@ CHECKS = {
  "C04": ("A-sequential-explorer",
          "explicit-state BFS to a fixpoint with every gate answer available at every frame + exhaustive deviation-bounded trees of motion strings x per-frame gate answers (real window.Window with injected clock at the boundaries, disk check, file creation); iff-oracle",
          "Every event string to depth 8 (9) with <=2 (3) per-frame gate deviations from the full menu (window clock at start-1ns/start/start+1s/stop-1ns/stop/stop+1s/other day for a day window, a window spanning midnight and no window; disk check refused; creation refused; combinations), trigger-frames 0..3; a start must happen iff all five conditions of the statement hold, using the harness's own interval arithmetic. Overlay stage: the real free-disk-space check at every boundary position of min-disk-space.",
-         "The disk check is an abstract gate answer in the processor-level exploration; it is bound to the real code by an overlay stage (cmd/thermal-recorder): checkDiskSpace, CheckCanRecord and the min-disk-space-mb setting end to end through handleConn, with min-disk-space at 0, 1, free-1, free, free+1, 2*free, 2^40 MB relative to the free space measured by the harness (free space itself cannot be injected without a hook; cases during which it moved are repeated, then skipped).",
+         "The disk check is an abstract gate answer in the processor-level exploration; it is bound to the real code by an overlay stage (cmd/thermal-recorder): checkDiskSpace, CheckCanRecord and the min-disk-space-mb setting end to end through handleConn, with min-disk-space at 0, 1, free-1, free, free+1, 2*free, 2^40, 2^44, 2^44+1, 2^50, 2^62 (2^63, 2^64-1 direct) MB relative to the free space measured by the harness (free space itself cannot be injected without a hook; cases during which it moved are repeated, then skipped).",
          "DESIGN.md §4 C04"),
  "C05": ("A-sequential-explorer",
          "explicit-state BFS to a fixpoint + exhaustive bounded tree on the real ThrottledRecorder with injected clock; arrival-curve monitor; composition under the real MotionProcessor",
@@ -89,7 +89,7 @@ CHECKS = {
          "DESIGN.md §4 C10"),
  "C11": ("D-end-to-end-driver",
          "exhaustive pair/boundary enumeration of frame contents and metadata through the real CPTVFileRecorder and standard reader; end-to-end enumeration of config.toml setting combinations through the real ParseConfig + handleConn on an in-memory connection, differential against a harness-wired real MotionProcessor",
-         "Recorder level: every ordered pair of images over a 3-pixel (quick, 46 656 pairs) / 4-pixel (thorough, 1.68 M pairs) block x six byte-boundary values as consecutive frames, every position x value on 8x6 (sampled on 160x120), telemetry/ids/strings (0,1,255 bytes, YAML-hostile)/location components/threshold/preview/fps one field at a time. End to end: every combination of camera model (boson, lepton3, lepton3.5 with model motion defaults) x (min,max,preview) x trigger frames x throttling x continuous recorder, each with a motion-burst stream (thorough: three motion patterns, one still in progress when the connection ends), plus the camera reconnecting as another model on the same daemon; every finished file is compared frame by frame and field by field with the recording predicted from the settings.",
+         "Recorder level: every ordered pair of images over a 3-pixel (quick, 46 656 pairs) / 4-pixel (thorough, 1.68 M pairs) block x six byte-boundary values as consecutive frames, every position x value on 8x6 (sampled on 160x120), telemetry/ids/strings (0,1,255 bytes, YAML-hostile)/location components/threshold/preview/fps one field at a time. End to end: every combination of camera model (boson, lepton3, lepton3.5 with model motion defaults) x (min,max,preview) x trigger frames x throttling x continuous recorder, each with a motion-burst stream (thorough: three motion patterns, one still in progress when the connection ends), plus a TakeTestRecording request through the service before/during/after the motion recording, plus the camera reconnecting as another model on the same daemon (continuous recorder on); every finished file is compared frame by frame and field by field with the recording predicted from the settings.",
          "Universality over 16-bit data is outside what enumeration gives (alphabets are stated in the evidence). Empty brand/model/firmware strings are stored as 'absent' by the format and not compared. Throttling with min-secs+preview-secs = 0 is excluded (library panic, noted in DESIGN.md).",
          "DESIGN.md §4 C11"),
  "C14": ("D-end-to-end-driver",
